@@ -308,6 +308,53 @@ PROPS["C16"] = dict(
     level_note="Trusted: oracle/ref.hpp, libidn2 (A-label forms), sanitizers, shim (copies lpart/domain out of the record).",
 )
 
+PROPS["C10"] = dict(
+    level="exploration",
+    default_binary="c10",
+    binaries={"c10": dict(src=["props/c10.cpp"], variants=["dflt"])},
+    stages=[
+        stage("corpus"),
+        stage("tlds"),
+        stage("scripts"),
+        stage("random", kind="rc", quick=8000, thorough=100000, max_size=100),
+    ],
+    rule="Domains: every IDN TLD row of the table in U- and A-form x 10 placements; single code points of 11 script ranges (Cyrillic lower/upper, "
+         "Greek, Han, Hangul, Arabic, Hebrew, Devanagari, Latin-1, full-width Latin, Hiragana) x 5 placements; labels of 1-64 characters per script "
+         "(A-label crossing the 63 limit); 30 invalid or mapped forms (disallowed code points, ZWJ, hyphen rules, fake A-labels, malformed UTF-8, "
+         "bidi violations, sharp s / final sigma); grammar-based random IDN and ASCII host names (1-4 labels, mixed scripts, case variants); the "
+         "repository corpus and data/tld-domains.txt. Non-trivial = a real conversion happened (U differs from A) or the IDN library refuses the "
+         "domain; distinct by domain hash.",
+    assumptions=["libidn2 (idn2_to_ascii_8z, IDN2_NONTRANSITIONAL) called by the harness is the trusted base for 'IDNA2008-valid' and for the A-label form",
+                 "only what the installed libidn2 2.3.3 calls valid can be quantified over"],
+    min_evaluations=dict(quick=1_000_000, thorough=10_000_000),
+    technique="metamorphic relation U-label <-> A-label with the IDN library as trusted converter, plus cross-mode differential on the A-label spelling; systematic script/TLD enumeration + rapidcheck generation",
+    level_text="Exploration by a metamorphic relation (spelling change must not change the outcome); all IDN rows of the table and a systematic "
+               "cover of scripts and label lengths are enumerated, mixed domains are sampled.",
+    level_note="Trusted: libidn2 as converter, sanitizers, shim.",
+)
+
+PROPS["C19"] = dict(
+    level="fault_enumeration",
+    default_binary="c19",
+    binaries={"c19": dict(src=["props/c19.cpp"], variants=["fault"])},
+    stages=[
+        stage("single"),
+        stage("random", kind="rc", quick=600, thorough=10000, max_size=100),
+    ],
+    rule="Fault schedules over runs of validations on one eav_t (mode 6531 mixed with ASCII-mode calls, 16 address kinds): a single fault for every "
+         "idn2 return code of the installed header (28 constants incl. IDN2_MALLOC, plus unknown -999 / -1 and positive 1 / 7) x {output buffer "
+         "produced, not produced} x every conversion position of runs of 1, 2 and 8 validations and the ends and every 7th position of runs of "
+         "50, in 3 workload templates; random schedules of 0-5 faults over runs of 1-50 validations. Non-trivial = a run with at least one fault "
+         "followed by at least one normal validation; distinct by (steps, schedule) hash.",
+    assumptions=["faults are injected by redirecting the library's reference to idn2_to_ascii_8z at link time (no source hook)",
+                 "allocation failure inside libeav itself is excluded by the statement", "LeakSanitizer's recoverable leak check after each run is the leak oracle"],
+    min_evaluations=dict(quick=50_000, thorough=500_000),
+    technique="fault injection at the IDN converter with enumerated single faults (code x buffer x position) and rapidcheck-generated multi-fault schedules; per-step model + fresh-object differential + ASan/LSan",
+    level_text="Fault enumeration: the converter's whole return-code set is injected at every conversion position of short runs; containment is "
+               "judged per step against a fresh object, leaks and double frees by the sanitizers.",
+    level_note="Trusted: libidn2's idn2_strerror, ASan/LSan, objcopy symbol redirection, shim.",
+)
+
 
 def stages_for(pid, tier):
     out = []
